@@ -419,7 +419,7 @@ def vertical_cases(draw):
     """detect_vertical: stacked glyphs form vertical lines; the neighbour relation of a vertical line (same width,
     lower/upper/centre aligned, within line_margin*width; LTTextLineVertical.find_neighbors) holds between vertical
     lines only.  Placements are clearly inside / outside every tolerance."""
-    w, h = draw(st.sampled_from([(Fr(10), Fr(10)), (Fr(8), Fr(12)), (Fr(12), Fr(8))]))
+    w, h = draw(st.sampled_from([(Fr(10), Fr(10)), (Fr(8), Fr(12)), (Fr(12), Fr(8)), (Fr(4), Fr(12)), (Fr(16), Fr(6))]))
     la = {"line_overlap": Fr(1, 2), "char_margin": Fr(1, 2), "line_margin": Fr(2), "word_margin": Fr(1, 8),
           "boxes_flow": draw(st.sampled_from([Fr(1, 2), None, Fr(0)])), "detect_vertical": True}
     n = draw(st.integers(3, 6))
@@ -434,6 +434,23 @@ def vertical_cases(draw):
     def run(x, count, ytop):
         return [glyph(x, ytop - (i + 1) * h) for i in range(count)]
 
+    if draw(st.integers(0, 2)) == 0:
+        # one column whose lower part is shifted sideways: consecutive glyphs stay in one vertical line exactly when
+        # their horizontal overlap exceeds line_overlap * min(width) (documented as relative to the glyph size across
+        # the writing direction)
+        n = draw(st.integers(4, 6))
+        k = draw(st.integers(2, n - 2))
+        step, near = draw(st.sampled_from([(Fr(0), False), (-STEP, True), (Fr(0, 1) + 0, True), (STEP, True), (Fr(3), False),
+                                           (-Fr(3), False)]))
+        dx = w * la["line_overlap"] + step if near or step else Fr(0)
+        dx = dx * draw(st.sampled_from([1, -1]))
+        overlap = w - abs(dx)
+        joined = w * la["line_overlap"] < overlap
+        gl = [glyph(x0 + (dx if i >= k else 0), top - (i + 1) * h) for i in range(n)]
+        ids = [g["id"] for g in gl]
+        parts = [ids] if joined else [ids[:k], ids[k:]]
+        return {"kind": "vertical", "glyphs": gl, "la": la, "near": near, "groups": [sorted(p) for p in parts],
+                "vlines": parts, "tags": ["shifted-column", "joined" if joined else "split"]}
     gl, groups = [], []
     stray = draw(st.sampled_from(["upper", "lower", "centre", "none-far", "off"]))
     side = draw(st.sampled_from([-1, 1]))
